@@ -89,3 +89,30 @@ Example C12_nonvacuous :
   run_codes [(0,1);(1,1);(0,0);(1,2);(0,0);(2,1);(0,1);(2,1);(3,0);(0,3);(2,3);(0,6)]
   = [1;1;0;2;1;0;1;1;0;10+0+1;10+0+1;20+1].
 Proof. vm_compute. reflexivity. Qed.
+
+(* One request can name several locks (a POSIX byte range: SQLite locks READ1..READ4 in one fcntl call).  It is granted
+   or refused as a whole: after a refusal every owner's state on every one of the twelve locks is what it was before the
+   request (Model/Locks.v try_locks / try_rlocks over the generated RWMutex; db.go TryLocks / TryRLocks, restoreGuards). *)
+Require Import LF.Model.Locks LF.Proofs.LocksProofs.
+Theorem C12_range_request_refused_changes_nothing : forall ls t g t',
+  TInv t -> NoDup ls -> try_locks t g ls = Some (false, t') -> forall l h, gst (t' l) h = gst (t l) h.
+Proof. exact try_locks_refused_changes_nothing. Qed.
+Theorem C12_shared_range_request_refused_changes_nothing : forall ls t g t',
+  TInv t -> NoDup ls -> try_rlocks t g ls = Some (false, t') -> forall l h, gst (t' l) h = gst (t l) h.
+Proof. exact try_rlocks_refused_changes_nothing. Qed.
+(* Non-vacuity: owner 2 holds READ3 shared, owner 1 holds READ1 shared and asks for READ1..READ4 exclusively: refused,
+   and READ1 is shared by owner 1 again (it had been upgraded on the way), READ2 unlocked *)
+Example C12_range_nonvacuous :
+  match t_tryrlock tinit LRead3 2 with
+  | Some (_, t1) =>
+    match t_tryrlock t1 LRead1 1 with
+    | Some (_, t2) =>
+      match try_locks t2 1 [LRead1; LRead2; LRead3; LRead4] with
+      | Some (b, t3) => (b, map (fun l => (gst (t3 l) 1, gst (t3 l) 2)) [LRead1; LRead2; LRead3; LRead4])
+      | None => (true, [])
+      end
+    | None => (true, [])
+    end
+  | None => (true, [])
+  end = (false, [(Shared, Unlocked); (Unlocked, Unlocked); (Unlocked, Shared); (Unlocked, Unlocked)]).
+Proof. vm_compute. reflexivity. Qed.
